@@ -379,13 +379,14 @@ struct C07
     int closer; // a third connection of the same worker goes away in the very batch in which A becomes writable again
     int fileAt = -1; // which of A's pending writes is a file (sendfile) instead of a raw buffer; -1: none
     int stale  = 0;  // a write for a connection that is already gone sits in the write queue ahead of B's response
+    int again  = 0;  // after its release A accepts 3 more bytes and would-blocks a second time
 };
 static std::vector<C07> gC07;
 
 static void case_c07(uint64_t idx, vr::Ctx& ctx)
 {
     const C07 c = gC07[idx];
-    std::string desc = std::string(c.stale ? "[a write for a vanished connection is queued ahead of B's response] " : "") + std::string(c.closer ? "[third connection closes when A is released] " : "") + (c.fileAt >= 0 ? "[A's write " + std::to_string(c.fileAt) + " is a file] " : std::string()) + "A: " + std::to_string(c.pending) + " pending writes, would-block at write call " + std::to_string(c.blockAt) + " released after " + std::to_string(c.releaseAfter) + " steps; B: request at step " + std::to_string(c.arriveAt) + (c.split ? " (in two reads)" : "") + "; event order " + (c.order ? "B first" : "A first");
+    std::string desc = std::string(c.again ? "[A would-blocks a second time after its release] " : "") + std::string(c.stale ? "[a write for a vanished connection is queued ahead of B's response] " : "") + std::string(c.closer ? "[third connection closes when A is released] " : "") + (c.fileAt >= 0 ? "[A's write " + std::to_string(c.fileAt) + " is a file] " : std::string()) + "A: " + std::to_string(c.pending) + " pending writes, would-block at write call " + std::to_string(c.blockAt) + " released after " + std::to_string(c.releaseAfter) + " steps; B: request at step " + std::to_string(c.arriveAt) + (c.split ? " (in two reads)" : "") + "; event order " + (c.order ? "B first" : "A first");
     ctx.note("c07 " + desc);
     auto handler = std::make_shared<EchoHandler>();
     lp::Loop loop(handler);
@@ -414,6 +415,11 @@ static void case_c07(uint64_t idx, vr::Ctx& ctx)
     for (int i = 0; i < c.blockAt; ++i)
         W.plan[fa].push_back({ lp::ACCEPT, 3 });
     W.plan[fa].push_back({ lp::BLOCK, 0 });
+    if (c.again)
+    {
+        W.plan[fa].push_back({ lp::ACCEPT, 3 });
+        W.plan[fa].push_back({ lp::BLOCK, 0 });
+    }
     std::string expectA, gotA, gotB;
     std::vector<int> settledA(c.pending, 0);
     for (int i = 0; i < c.pending; ++i)
@@ -457,9 +463,9 @@ static void case_c07(uint64_t idx, vr::Ctx& ctx)
         bool held = W.held.count(fa) && W.held[fa];
         if (held && heldSince < 0)
             heldSince = s;
-        if (held && !released && s - heldSince >= c.releaseAfter)
+        if (held && (!released || c.again) && s - heldSince >= c.releaseAfter)
         {
-            if (c.closer)
+            if (c.closer && !released)
             {
                 ::close(cc);                      // EOF on the third connection ...
                 for (auto& f : loop.clientFds)
@@ -467,7 +473,9 @@ static void case_c07(uint64_t idx, vr::Ctx& ctx)
                         f = -1;
             }
             loop.release(fa);                     // ... in the same batch as A's writable edge
-            released = true;
+            released  = true;
+            heldSince = -1;                       // (a second would-block period is timed on its own)
+            continue;
         }
         if (!progressed && s > c.arriveAt + 2 && (released || heldSince < 0) && !held)
             break;
@@ -527,6 +535,7 @@ int main(int argc, char** argv)
                                     if (!cl && !sp)
                                     {
                                         gC07.push_back({ p, i, d, j, o, sp, cl, -1, 1 });
+                                        gC07.push_back({ p, i, d, j, o, sp, cl, -1, 0, 1 });
                                         gC07.push_back({ p, i, d, j, o, sp, cl, 0 });
                                         if (p > 1)
                                             gC07.push_back({ p, i, d, j, o, sp, cl, p - 1 });
